@@ -13,7 +13,7 @@ From Stam Require Import Model.Loader Spec.LoaderSpec Proofs.Loader.
 Local Open Scope N_scope.
 
 (* --- string parsers ------------------------------------------------ *)
-Theorem C19_cursor_total : forall s, cursor_of_str s <> Panic /\ cursor_of_str s <> Abort.
+Theorem C19_cursor_total : forall s, cursor_of_str s <> Panic /\ cursor_of_str s <> Abort /\ cursor_of_str s <> Hang.
 Proof. exact cursor_safe. Qed.
 
 Theorem C19_cursor_spec : forall s, cursor_of_str s = spec_cursor s.
@@ -22,19 +22,19 @@ Proof. exact cursor_model_spec. Qed.
 Theorem C19_cursor_roundtrip : forall c, cursor_wf c -> cursor_of_str (str_of_cursor c) = Ok c.
 Proof. exact cursor_roundtrip. Qed.
 
-Theorem C19_type_total : forall lower s, type_of_str lower s <> Panic /\ type_of_str lower s <> Abort.
+Theorem C19_type_total : forall lower s, type_of_str lower s <> Panic /\ type_of_str lower s <> Abort /\ type_of_str lower s <> Hang.
 Proof. exact type_total. Qed.
 
 Theorem C19_type_roundtrip : forall hi t, type_of_str (lower_with hi) (str_of_type t) = Ok t.
 Proof. exact type_roundtrip. Qed.
 
-Theorem C19_kind_total : forall s, kind_of_str s <> Panic /\ kind_of_str s <> Abort.
+Theorem C19_kind_total : forall s, kind_of_str s <> Panic /\ kind_of_str s <> Abort /\ kind_of_str s <> Hang.
 Proof. exact kind_total. Qed.
 
 Theorem C19_kind_roundtrip : forall k, kind_of_str (str_of_kind k) = Ok k.
 Proof. exact kind_roundtrip. Qed.
 
-Theorem C19_format_total : forall s, format_of_str s <> Panic /\ format_of_str s <> Abort.
+Theorem C19_format_total : forall s, format_of_str s <> Panic /\ format_of_str s <> Abort /\ format_of_str s <> Hang.
 Proof. exact format_total. Qed.
 
 Theorem C19_temp_id_total : forall is_upper s, exists o, resolve_temp_id is_upper false s = Ok o.
@@ -81,17 +81,49 @@ Theorem Known_C19_alloc_witness :
 Proof. exact visit_alloc_refuted. Qed.
 
 (* --- CSV rows, @include -------------------------------------------- *)
-Theorem C19_csv_row_total : forall r, csv_row false r <> Panic /\ csv_row false r <> Abort.
+Theorem C19_csv_row_total : forall r, csv_row false r <> Panic /\ csv_row false r <> Abort /\ csv_row false r <> Hang.
 Proof. exact csv_row_safe. Qed.
 
+(* the rows to_csv writes for a simple selector (the six kinds) are read back as written *)
+Theorem C19_csv_simple_roundtrip : forall id data set b,
+  data <> [] -> nosemi data -> nosemi set -> simple_wf b ->
+  csv_row false (row_of_simple id data set b)
+  = Ok {| ab_id := opt id; ab_data := [(set, data)]; ab_target := Some b |}.
+Proof. exact csv_simple_roundtrip. Qed.
+
 Theorem C19_resource_include_total : forall stack t,
-  resource_include false stack t <> Panic /\ resource_include false stack t <> Abort.
+  resource_include false stack t <> Panic /\ resource_include false stack t <> Abort /\ resource_include false stack t <> Hang.
 Proof. exact resource_include_safe. Qed.
 
 Theorem C19_dataset_include_total : forall files depth stack inc,
   (max_include_depth + 1 <= stack + depth)%nat ->
-  ds_include false stack depth files inc <> Panic /\ ds_include false stack depth files inc <> Abort.
+  ds_include false stack depth files inc <> Panic /\ ds_include false stack depth files inc <> Abort /\ ds_include false stack depth files inc <> Hang.
 Proof. exact ds_include_safe. Qed.
+
+Theorem C19_include_stdin_total : forall stdin_open,
+  include_stdin false stdin_open <> Panic /\ include_stdin false stdin_open <> Abort
+  /\ include_stdin false stdin_open <> Hang.
+Proof. exact include_stdin_safe. Qed.
+
+(* --- running time of the data lookup: linear with ids or fresh keys, quadratic otherwise --- *)
+Theorem C19_cost_with_ids : forall l count, forallb d_hasid l = true -> dedup_cost count l = 0.
+Proof. exact dedup_cost_ids. Qed.
+
+Theorem C19_cost_fresh_keys : forall l count,
+  NoDup (map d_key l) -> (forall d, In d l -> count (d_key d) = 0) -> dedup_cost count l = 0.
+Proof. exact dedup_cost_fresh_keys. Qed.
+
+Theorem Known_C19_quadratic_witness : forall k n count,
+  2 * dedup_cost count (repeat {| d_key := k; d_hasid := false |} n)
+  = N.of_nat n * (N.of_nat n - 1) + 2 * count k * N.of_nat n.
+Proof. exact dedup_cost_same_key. Qed.
+
+Theorem Known_C19_quadratic_superlinear : forall n, 4 <= n -> superlinear n false true = true.
+Proof. exact superlinear_same_key. Qed.
+
+Theorem C19_linear_otherwise : forall n hasid samekey,
+  hasid = true \/ samekey = false -> superlinear n hasid samekey = false.
+Proof. exact superlinear_linear. Qed.
 
 (* --- CBOR: refuted ------------------------------------------------- *)
 Theorem Known_C19_cbor_handle_witness :
@@ -109,11 +141,12 @@ Theorem C19_before_the_repairs :
   /\ fst (visit_doc up_run cap_run ovf_run true true st0 [[el "!A18446744073709551615"%string]]) = SPanic
   /\ csv_row true (row "KS"%string "!D5"%string "s"%string "DataKeySelector"%string ""%string ""%string "s"%string ""%string ""%string "k"%string ""%string) = Panic
   /\ (forall stack, resource_include true stack false = Abort)
-  /\ (forall stack, ds_include true stack 0 [Some 0%nat] (Some 0%nat) = Abort).
+  /\ (forall stack, ds_include true stack 0 [Some 0%nat] (Some 0%nat) = Abort)
+  /\ include_stdin true true = Hang.
 Proof.
   split; [exact temp_id_old_refuted|]. split; [exact visit_old_abort|].
   split; [exact visit_old_capacity_overflow|]. split; [exact (proj1 csv_old_refuted)|].
-  split; [exact resource_include_old_refuted|exact ds_include_old_refuted].
+  split; [exact resource_include_old_refuted|]. split; [exact ds_include_old_refuted|reflexivity].
 Qed.
 
 (* non-vacuity *)
